@@ -2,6 +2,9 @@
 // writes canonical observation lines. Every API call that may panic runs under catch_unwind.
 mod common;
 mod net;
+mod sched;
+mod solve;
+mod tour;
 
 use std::env;
 use std::fs;
@@ -17,10 +20,22 @@ fn main() {
     let case: serde_json::Value =
         serde_json::from_str(&fs::read_to_string(&args[2]).expect("read case")).expect("parse case");
     // silence the default panic message (panics are expected outcomes and are reported as lines)
-    std::panic::set_hook(Box::new(|_| {}));
+    std::panic::set_hook(Box::new(|info| {
+        let loc = info.location().map(|l| format!("{}:{}", l.file(), l.line())).unwrap_or_default();
+        let msg = if let Some(s) = info.payload().downcast_ref::<&str>() {
+            s.to_string()
+        } else if let Some(s) = info.payload().downcast_ref::<String>() {
+            s.clone()
+        } else {
+            String::new()
+        };
+        *common::LAST_PANIC.lock().unwrap() = format!("{} {}", loc, msg.replace('\n', " "));
+    }));
     let mut out = String::new();
     match cmd {
         "net" => net::run(&case, &mut out),
+        "tour" => tour::run(&case, &mut out),
+        "solve" => solve::run(&case, &mut out),
         _ => {
             eprintln!("unknown command {}", cmd);
             std::process::exit(2);
